@@ -6,7 +6,7 @@ from ..runner import Finding, Result
 from . import common
 
 PROFILE = {
-    "name": "c02", "max_clients": 6, "hostile_masks": False,
+    "name": "c02", "forge_prefix": True, "max_clients": 6, "hostile_masks": False,
     "cfg_variants": [{}, {"reg_users": ["cy", "bob"]}, {"reg_users": ["al"], "default_modes": "i"}],
     "weights": dict(connect=14, end=8, quit=4, nick=22, join=8, part=2, kick=1, privmsg=8, notice=2, cmode=3, umode=6,
                     oper=2, kill=2, half=5, half_complete=6, half_probe=6, topic=0.5, invite=0.5, away=0.5, wallops=0.5, stats=0, die=0, squit=0, names=1,
